@@ -36,7 +36,7 @@ pub static SPEC: Spec = Spec {
         "contiguous_length and has() exactness are decided by C08; C02 compares length, byte length, writability and get() of every index",
     ],
     exhaustive_note: "per history every journal prefix is enumerated (exhaustive over crash points); histories exhaustive for L<=4 (quick) / L<=5 (thorough) over the alphabet",
-    hang_secs: 180,
+    hang_secs: 360,
 };
 
 pub static SPEC_C07: Spec = Spec {
@@ -65,7 +65,7 @@ pub static SPEC_C07: Spec = Spec {
         "a torn write leaves exactly a byte prefix of the intended write (no garbage beyond it), earlier operations are intact",
     ],
     exhaustive_note: "all proper prefixes for writes <= 64 bytes; boundary + random cuts for longer writes",
-    hang_secs: 180,
+    hang_secs: 360,
 };
 
 fn exh_len(t: Tier) -> usize {
